@@ -946,7 +946,10 @@ func genC05(r *Rng, tier string) []Case {
 			for _, order := range [][]string{
 				{"unknown-sec", "index", "responses"}, {"index", "unknown-sec", "responses"}, {"unknown-sec", "critical", "index", "responses"},
 				{"index", "responses", "unknown-sec"}, {"responses", "index"}, {"index"}, {"responses"}, {}, {"index", "index#", "responses"},
-				{"index", "responses", "responses#"}, {"unknown-sec", "unknown-sec#", "index", "responses"}, {"index", "critical", "unknown-sec", "responses"}} {
+				{"index", "responses", "responses#"}, {"unknown-sec", "unknown-sec#", "index", "responses"}, {"index", "critical", "unknown-sec", "responses"},
+				// the same name twice with other sections in between (round 15)
+				{"index", "responses", "index#"}, {"index", "unknown-sec", "index#", "responses"}, {"index#", "responses", "index"}, {"responses#", "index", "responses"},
+				{"unknown-sec", "index", "unknown-sec#", "responses"}, {"index", "critical", "responses", "index#"}, {"index", "responses", "critical", "responses#"}} {
 				c := clone()
 				c.extra = []bbSection{unk, crit, {name: "index#", body: []byte{0xa0}}, {name: "responses#", body: []byte{0x80}}, {name: "unknown-sec#", body: []byte{1, 2, 3}}}
 				c.order = order
